@@ -27,6 +27,16 @@ CHECKS.update({
    text="Model checking plus conformance: Refine.tla is checked exhaustively (about 70k states) and all its maximal behaviours up to the depth bound are replayed against the real builder with NewValue(), range accessors and Range().Includes(candidate) observed after every call; TLC steps the model alongside the recorded trace and rejects any divergence (exact range, collapse to known only when exact, contradictions rejected, consistent calls accepted, Includes answers sound). Prefix safety is checked for every (prefix, continuation) pair over an abstract alphabet of combining marks, Hangul jamo, ZWJ, emoji modifiers, regional indicators, CR/LF and delimiters.",
    design_ref="DESIGN.md section 4 C05",
    note="Depth 3 (thin menu) + depth 2 (full menu) quick; depth 3 full + depth 4 thin thorough. Bounds on a known null and calls foreign to the type are recorded, not judged. Trusted: harness projection, TLC; the normal form of strings is go-cty's own (StringVal)."),
+ "C03": dict(
+   technique="TLC judgement of complete observed equality/hash/order relations per type group; TLA+ ValueSet state machine (bag-of-classes model) model-checked and its simulated behaviours replayed on real ValueSets with TLC trace validation; implementation-shaped slice model (SetImpl) predicting adversarial histories",
+   text="Model checking plus conformance: per type TLC receives the full n x n matrices of RawEquals/Equals/Hash/LessThan/GreaterThan over physical variants (precisions 24/53/64/512 bits, -0, NFD input) and checks equivalence laws, null equality, Equals<=>RawEquals, trichotomy and equal=>same-hash on the whole relation; SetVal is checked over all permutations of its inputs; ValueSetSM.tla (Add/Remove/Has/Copy/Union/Intersection/Subtract/SymmetricDifference/SetVal round trip on three slots) is model-checked and thousands of simulated behaviours plus histories predicted by the slice-level model SetImpl.tla are replayed on real ValueSets, the trace spec comparing the members of every set with the model after every step (membership, Has, Length, iteration order as a function of the members, isolation of the other sets).",
+   design_ref="DESIGN.md section 4 C03",
+   note="Pool of 12 number elements (6 classes + 5 unknowns); groups of at most 64 physical values per type; simulation is sampled, not exhaustive. Trusted: harness projection, TLC."),
+ "C10": dict(
+   technique="TLA+ contract of the call protocol (guards over the observed callback sequence and outcome); TLC-enumerated and RandomSubset-sampled specifications x argument lists replayed through real function.Spec values with spy callbacks; TLC trace validation",
+   text="Bounded-exhaustive for one parameter (all 16 flag combinations x 3 type constraints x callback behaviours x argument lists of length 0..2 over 10 argument kinds) plus a seeded sample of the full product (0..2 positional + optional variadic, lists up to length 4): each configuration becomes a real function.Spec whose callbacks record the arguments they receive; TLC checks on every recorded call that the implementation ran only after the type check accepted the same arguments, that callback arguments satisfy the declared contract, that errors name an offending argument, that short-circuit results carry the required marks and refinements, that panics come back as errors, and that ReturnTypeForValues agrees.",
+   design_ref="DESIGN.md section 4 C10",
+   note="Callback behaviours and RefineResult come from a fixed menu; where several arguments offend the contract accepts any offending index (today's order is not pinned). Trusted: spy callbacks, harness projection, TLC."),
 })
 
 NOT_APPLICABLE = {}
